@@ -163,7 +163,8 @@ func parseDate(env Environment, str string) (dates.Date, string, error) {
 	str = strings.Trim(str, " \n\r\t")
 
 	// try to parse as ISO date
-	asISO, err := time.ParseInLocation(iso8601DateOnlyFormat, str[0:min(len(iso8601DateOnlyFormat), len(str))], env.Timezone())
+	// (only the year, month and day are used, so parse in UTC where every day has a midnight)
+	asISO, err := time.ParseInLocation(iso8601DateOnlyFormat, str[0:min(len(iso8601DateOnlyFormat), len(str))], time.UTC)
 	if err == nil {
 		return dates.ExtractDate(asISO), str[len(iso8601DateOnlyFormat):], nil
 	}
